@@ -31,6 +31,9 @@ CHECKS = {
  "C07": dict(engine="proptest+libfuzzer", technique="differential testing against a hand-written longest-prefix scanner + history testing of the resume protocol over all single cuts and generated partitions; exhaustive word classification in the thorough tier",
    text="Entries, consumed length and untouched remainder equal a 30-line reference scanner; a second call makes no progress; feeding the stream in pieces (every single cut position, generated multi-piece partitions) equals parsing it whole; word classification enumerated (all 2^32 words in thorough).",
    note="Multi-piece partitions are sampled.", ref="DESIGN.md section 4 C07"),
+ "C08": dict(engine="proptest", technique="exhaustive enumeration (names, run numbers, boards x chips x channels) against a reference grammar and bijection counting, plus proptest for non-ASCII / other lengths",
+   text="Every 4-byte name over an alphabet (all 128^4 ASCII strings in thorough) and other lengths through all 13 name parsers against a reference grammar; accepted names injective; for every run number 0..=20000 and extremes the wire map is a bijection onto 256 wires or all-Err, the PWB placement has exactly 64 boards on 64 cells or all-Err, the pad map is a bijection onto 18432 pads; simulation == run 5000; wire/pad-column association equals geometry.",
+   note="Geometry association is read through the verif-hooks feature (wire_to_pad_column / pad_column_to_wires); golden board tables trusted.", ref="DESIGN.md section 4 C08"),
 }
 
 NOT_YET = {}
